@@ -16,16 +16,19 @@ type solverSpec struct {
 	// ufnl: run on the script with non-linear multiplication/division made uninterpreted
 	// (see ufnl.go); only `unsat` is meaningful for such a configuration
 	ufnl bool
+	// unsatOnly: the configuration is incomplete for quantifiers (E-matching only): a `sat`
+	// answer may come with a model that violates a quantified assumption, so only `unsat` counts
+	unsatOnly bool
 }
 
 var solvers = []solverSpec{
 	{name: "z3-5.1.0", cmd: func(t int) []string { return []string{"z3-new", "-in", "-T:" + itoa(t)} }},
 	// E-matching only: the VCs carry explicit triggers; MBQI often diverges on them
-	{name: "z3-5.1.0-ematch", cmd: func(t int) []string { return []string{"z3-new", "-in", "-T:" + itoa(t), "smt.mbqi=false"} }},
+	{name: "z3-5.1.0-ematch", cmd: func(t int) []string { return []string{"z3-new", "-in", "-T:" + itoa(t), "smt.mbqi=false"} }, unsatOnly: true},
 	// congruence-only arithmetic: products of symbolic factors are uninterpreted
 	{name: "z3-5.1.0-ufnl", cmd: func(t int) []string { return []string{"z3-new", "-in", "-T:" + itoa(t), "smt.mbqi=false"} }, ufnl: true},
 	{name: "z3-4.8.12", cmd: func(t int) []string { return []string{"z3", "-in", "-T:" + itoa(t)} }},
-	{name: "z3-4.8.12-ematch", cmd: func(t int) []string { return []string{"z3", "-in", "-T:" + itoa(t), "smt.mbqi=false"} }},
+	{name: "z3-4.8.12-ematch", cmd: func(t int) []string { return []string{"z3", "-in", "-T:" + itoa(t), "smt.mbqi=false"} }, unsatOnly: true},
 	{name: "z3-4.8.12-ufnl", cmd: func(t int) []string { return []string{"z3", "-in", "-T:" + itoa(t), "smt.mbqi=false"} }, ufnl: true},
 	{name: "cvc5-1.0", cmd: func(t int) []string {
 		return []string{"cvc5", "--lang=smt2", "--tlimit=" + itoa(t*1000), "--produce-models", "-"}
@@ -64,8 +67,8 @@ func runSolver(ctx context.Context, s solverSpec, script string, timeoutS int) s
 		res = "unsat"
 	case first == "sat":
 		res = "sat"
-		if s.ufnl {
-			res = "unknown" // a model of the weakened script says nothing about the original
+		if s.ufnl || s.unsatOnly {
+			res = "unknown" // a model of the weakened script / an E-matching-only model says nothing about the original
 		}
 	case first == "unknown":
 		res = "unknown"
